@@ -59,6 +59,19 @@ SeqCountParse(b) ==
     IF b[1] < 128 THEN b[1]
     ELSE IF b[1] < 255 THEN (b[1] - 128) * 256 + b[2]
     ELSE b[2] + b[3] * 256 + 32512
+\* the sequences section header on a source of exactly Len(b) bytes: count (1..3 bytes) and, unless the count is
+\* zero, the modes byte; [ok, n, used]
+SeqHdrParse(b) ==
+    LET bad == [ok |-> FALSE, n |-> 0, used |-> 0] IN
+    IF Len(b) = 0 THEN bad
+    ELSE IF b[1] = 0 THEN [ok |-> TRUE, n |-> 0, used |-> 1]
+    ELSE IF b[1] < 128 THEN (IF Len(b) < 2 THEN bad ELSE [ok |-> TRUE, n |-> b[1], used |-> 2])
+    ELSE IF b[1] < 255
+         THEN IF Len(b) < 2 THEN bad
+              ELSE LET n == (b[1] - 128) * 256 + b[2]
+                   IN IF n = 0 THEN [ok |-> TRUE, n |-> 0, used |-> 2]
+                      ELSE IF Len(b) < 3 THEN bad ELSE [ok |-> TRUE, n |-> n, used |-> 3]
+    ELSE IF Len(b) < 4 THEN bad ELSE [ok |-> TRUE, n |-> b[2] + b[3] * 256 + 32512, used |-> 4]
 
 \* ---- literals section header (3.1.1.3.1): value of the little-endian header bytes ---------------
 \* returns [type, regen, comp (-1 = none), streams (0 = n/a), bytes]
